@@ -105,7 +105,8 @@ func specLenByte(n int, nl int, k int) int {
 }
 
 //@ func getDataByteLength
-//@   property C01 C02 C13
+//@   property C01 C02 C13 C07
+//@   allocates 896
 //@   requires 0 <= size && size <= 1<<48
 //@   ensures  specKnownType(typ) ==> result == size * specWidth(typ)
 //@   ensures  !specKnownType(typ) ==> result == 0
@@ -174,9 +175,9 @@ func specTypeOf(ptype int, stype int) string {
 //@   ensures forall k int :: 0 <= k && k < 10 ==> result[4+k] == msg.header[k]
 
 //@ func NewHSMSControlMessage
-//@   property C14 C11 C03
-//@   allocates_assumed 512
-//@   allocates_on_panic 512
+//@   property C14 C11 C03 C07
+//@   allocates 64
+//@   allocates_on_panic 64
 //@   requires len(header) <= 10
 //@   let h = cast(result, *ControlMessage).header
 //@   ensures typeis(result, *ControlMessage) && fresh(result) && fresh(h) && len(h) == 10
@@ -277,6 +278,8 @@ func specMsgFieldsOK(stream int, function int, waitBit int, sessionID int, nSyst
 //@ func (*DataMessage).checkRep
 //@   establishes
 //@   property C12 C18 C06
+//@   allocates 0
+//@   allocates_on_panic 0
 //@   panics_iff has_space_rune(node.name) || !specMsgFieldsOK(node.stream, node.function, node.waitBit, node.sessionID, len(node.systemBytes), node.direction)
 //@   loop 1
 //@     invariant 0 <= iterpos && rune_start(node.name, iterpos)
@@ -331,6 +334,9 @@ func specEllipsisPattern() string { return `^\.{3}(\[\d+\])?$` }
 // Assumed facts about the regular expressions (the regexp engine itself is not modelled).
 //@ axiom forall s string :: re_match(specVarNamePattern(), s) ==> len(s) >= 1 && (s[0] == '_' || ('A' <= s[0] && s[0] <= 'Z') || ('a' <= s[0] && s[0] <= 'z'))
 //@ axiom forall s string :: re_match(specEllipsisPattern(), s) ==> len(s) >= 3 && s[0] == '.' && s[1] == '.' && s[2] == '.'
+
+// emptyItemNode.Variables returns the empty slice (definition of nvars for the one value of that type).
+//@ axiom forall x ItemNode :: typeis(x, emptyItemNode) ==> nvars(x) == 0
 
 func specIsIntW(w int) bool { return w == 1 || w == 2 || w == 4 || w == 8 }
 
@@ -393,6 +399,8 @@ func specBEByte(w int, v int, j int) int {
 	return int((uint64(v) >> ((w - 1 - j) * 8)) & 255)
 }
 
+//@ type IntNode view nvars(box(self, *IntNode)) == len(self.variables)
+
 //@ type IntNode invariant specIsIntW(self.byteSize) && len(self.values)*self.byteSize <= 16777215
 //@   invariant forall i int :: 0 <= i && i < len(self.values) ==> specInRangeI(self.byteSize, self.values[i])
 
@@ -443,6 +451,8 @@ func specBoolByte(b bool) int {
 	return 0
 }
 
+//@ type UintNode view nvars(box(self, *UintNode)) == len(self.variables)
+
 //@ type UintNode invariant specIsIntW(self.byteSize) && len(self.values)*self.byteSize <= 16777215
 //@   invariant forall i int :: 0 <= i && i < len(self.values) ==> specInRangeU(self.byteSize, self.values[i])
 
@@ -472,6 +482,8 @@ func specBoolByte(b bool) int {
 //@     invariant forall p int :: 0 <= p && p < (rangeindex+1)*w ==> result[h+p] == specBEByteU(w, node.values[p/w], p%w)
 //@     invariant forall j int :: 0 <= j && j < w-1-i ==> result[h+(rangeindex+1)*w+j] == specBEByteU(w, value, j)
 
+//@ type BinaryNode view nvars(box(self, *BinaryNode)) == len(self.variables)
+
 //@ type BinaryNode invariant len(self.values) <= 16777215
 //@   invariant forall i int :: 0 <= i && i < len(self.values) ==> 0 <= self.values[i] && self.values[i] < 256
 
@@ -492,6 +504,8 @@ func specBoolByte(b bool) int {
 //@     invariant forall k int :: 0 <= k && k < h-1 ==> result[1+k] == specLenByte(n, h-1, k)
 //@     invariant forall p int :: 0 <= p && p <= rangeindex ==> result[h+p] == node.values[p]
 
+//@ type BooleanNode view nvars(box(self, *BooleanNode)) == len(self.variables)
+
 //@ type BooleanNode invariant len(self.values) <= 16777215
 
 //@ func (*BooleanNode).ToBytes
@@ -510,6 +524,8 @@ func specBoolByte(b bool) int {
 //@     invariant result[0] == specFormatCode("boolean")*4 + specNLen(n)
 //@     invariant forall k int :: 0 <= k && k < h-1 ==> result[1+k] == specLenByte(n, h-1, k)
 //@     invariant forall p int :: 0 <= p && p <= rangeindex ==> result[h+p] == specBoolByte(node.values[p])
+
+//@ type ASCIINode view nvars(box(self, *ASCIINode)) == ite(self.isValue, 0, 1)
 
 //@ type ASCIINode invariant len(self.value) <= 16777215
 //@   invariant forall i int :: 0 <= i && i < len(self.value) ==> self.value[i] < 128
@@ -534,6 +550,8 @@ func specBoolByte(b bool) int {
 //@     invariant result[0] == specFormatCode("ascii")*4 + specNLen(n)
 //@     invariant forall k int :: 0 <= k && k < h-1 ==> result[1+k] == specLenByte(n, h-1, k)
 //@     invariant forall p int :: 0 <= p && p < iterpos ==> result[h+p] == node.value[p]
+
+//@ type FloatNode view nvars(box(self, *FloatNode)) == len(self.variables)
 
 //@ type FloatNode invariant specIsFloatW(self.byteSize) && len(self.values)*self.byteSize <= 16777215
 
@@ -572,6 +590,8 @@ func specBoolByte(b bool) int {
 //@ func (*IntNode).checkRep
 //@   establishes
 //@   property C12 C13
+//@   allocates 0 when len(node.variables) == 0
+//@   allocates_on_panic 0 when len(node.variables) == 0
 //@   let okW = specIsIntW(node.byteSize)
 //@   panics_if !okW
 //@   panics_if okW && (exists i int :: 0 <= i && i < len(node.values) && !specInRangeI(node.byteSize, node.values[i]))
@@ -583,15 +603,17 @@ func specBoolByte(b bool) int {
 //@     invariant okW && 0 <= rangeindex+1 && rangeindex+1 <= len(node.values)
 //@     invariant forall k int :: 0 <= k && k <= rangeindex ==> specInRangeI(node.byteSize, node.values[k])
 //@   loop 2
+//@     invariant len(node.variables) == 0 ==> allocated() == old(allocated())
 //@     invariant okW && forall k int :: 0 <= k && k < len(node.values) ==> specInRangeI(node.byteSize, node.values[k])
 //@     invariant forall s string :: has(itervisited, s) ==> has(node.variables, s) && 0 <= node.variables[s] && node.variables[s] < len(node.values) && node.values[node.variables[s]] == 0 && re_match(specVarNamePattern(), s) && has(visited, node.variables[s])
 //@     invariant forall s string, t string :: has(itervisited, s) && has(itervisited, t) && s != t ==> node.variables[s] != node.variables[t]
 //@     invariant fresh(visited)
 
 //@ func NewIntNode
-//@   property C01 C12 C13 C09
-//@   allocates_assumed 32*len(values) + 512
-//@   allocates_on_panic 32*len(values) + 512
+//@   property C01 C12 C13 C09 C07
+//@   allocates 32*len(values) + 1024 when (forall i int :: 0 <= i && i < len(values) ==> !typeis(values[i], string))
+//@   allocates_on_panic 32*len(values) + 1024 when (forall i int :: 0 <= i && i < len(values) ==> !typeis(values[i], string))
+//@   ensures (forall i int :: 0 <= i && i < len(values) ==> !typeis(values[i], string)) ==> nvars(result) == 0
 //@   let okW = specIsIntW(byteSize)
 //@   let r = cast(result, *IntNode)
 //@   panics_if !okW
@@ -604,6 +626,7 @@ func specBoolByte(b bool) int {
 //@   ensures forall s string :: has(r.variables, s) ==> 0 <= r.variables[s] && r.variables[s] < len(values) && typeis(values[r.variables[s]], string) && sval(values[r.variables[s]]) == s
 //@   ensures (forall i int :: 0 <= i && i < len(values) ==> !typeis(values[i], string)) ==> len(r.variables) == 0
 //@   loop 1
+//@     invariant (forall i int :: 0 <= i && i < len(values) ==> !typeis(values[i], string)) ==> allocated() - old(allocated()) <= 8*len(values) + 24*(rangeindex+1) + 912 && len(nodeVariables) == 0
 //@     invariant 0 <= rangeindex+1 && rangeindex+1 <= len(values) && len(nodeValues) == rangeindex+1 && fresh(nodeValues) && fresh(nodeVariables)
 //@     invariant forall k int :: 0 <= k && k <= rangeindex ==> (isint(values[k]) && nodeValues[k] == ival(values[k])) || (typeis(values[k], string) && nodeValues[k] == 0 && has(nodeVariables, sval(values[k])) && nodeVariables[sval(values[k])] == k)
 //@     invariant forall s string :: has(nodeVariables, s) ==> 0 <= nodeVariables[s] && nodeVariables[s] <= rangeindex && typeis(values[nodeVariables[s]], string) && sval(values[nodeVariables[s]]) == s
@@ -618,6 +641,8 @@ func specBoolByte(b bool) int {
 //@ func (*UintNode).checkRep
 //@   establishes
 //@   property C12 C13
+//@   allocates 0 when len(node.variables) == 0
+//@   allocates_on_panic 0 when len(node.variables) == 0
 //@   let okW = specIsIntW(node.byteSize)
 //@   panics_if !okW
 //@   panics_if okW && (exists i int :: 0 <= i && i < len(node.values) && !specInRangeU(node.byteSize, node.values[i]))
@@ -629,15 +654,17 @@ func specBoolByte(b bool) int {
 //@     invariant okW && 0 <= rangeindex+1 && rangeindex+1 <= len(node.values)
 //@     invariant forall k int :: 0 <= k && k <= rangeindex ==> specInRangeU(node.byteSize, node.values[k])
 //@   loop 2
+//@     invariant len(node.variables) == 0 ==> allocated() == old(allocated())
 //@     invariant okW && forall k int :: 0 <= k && k < len(node.values) ==> specInRangeU(node.byteSize, node.values[k])
 //@     invariant forall s string :: has(itervisited, s) ==> has(node.variables, s) && 0 <= node.variables[s] && node.variables[s] < len(node.values) && node.values[node.variables[s]] == 0 && re_match(specVarNamePattern(), s) && has(visited, node.variables[s])
 //@     invariant forall s string, t string :: has(itervisited, s) && has(itervisited, t) && s != t ==> node.variables[s] != node.variables[t]
 //@     invariant fresh(visited)
 
 //@ func NewUintNode
-//@   property C01 C12 C13 C09
-//@   allocates_assumed 32*len(values) + 512
-//@   allocates_on_panic 32*len(values) + 512
+//@   property C01 C12 C13 C09 C07
+//@   allocates 32*len(values) + 1024 when (forall i int :: 0 <= i && i < len(values) ==> !typeis(values[i], string))
+//@   allocates_on_panic 32*len(values) + 1024 when (forall i int :: 0 <= i && i < len(values) ==> !typeis(values[i], string))
+//@   ensures (forall i int :: 0 <= i && i < len(values) ==> !typeis(values[i], string)) ==> nvars(result) == 0
 //@   let okW = specIsIntW(byteSize)
 //@   let r = cast(result, *UintNode)
 //@   panics_if !okW
@@ -650,6 +677,7 @@ func specBoolByte(b bool) int {
 //@   ensures forall s string :: has(r.variables, s) ==> 0 <= r.variables[s] && r.variables[s] < len(values) && typeis(values[r.variables[s]], string) && sval(values[r.variables[s]]) == s
 //@   ensures (forall i int :: 0 <= i && i < len(values) ==> !typeis(values[i], string)) ==> len(r.variables) == 0
 //@   loop 1
+//@     invariant (forall i int :: 0 <= i && i < len(values) ==> !typeis(values[i], string)) ==> allocated() - old(allocated()) <= 8*len(values) + 24*(rangeindex+1) + 912 && len(nodeVariables) == 0
 //@     invariant 0 <= rangeindex+1 && rangeindex+1 <= len(values) && len(nodeValues) == rangeindex+1 && fresh(nodeValues) && fresh(nodeVariables)
 //@     invariant forall k int :: 0 <= k && k <= rangeindex ==> (isint(values[k]) && nodeValues[k] == ival(values[k])) || (typeis(values[k], string) && nodeValues[k] == 0 && has(nodeVariables, sval(values[k])) && nodeVariables[sval(values[k])] == k)
 //@     invariant forall s string :: has(nodeVariables, s) ==> 0 <= nodeVariables[s] && nodeVariables[s] <= rangeindex && typeis(values[nodeVariables[s]], string) && sval(values[nodeVariables[s]]) == s
@@ -664,6 +692,8 @@ func specBoolByte(b bool) int {
 //@ func (*BinaryNode).checkRep
 //@   establishes
 //@   property C12 C13
+//@   allocates 0 when len(node.variables) == 0
+//@   allocates_on_panic 0 when len(node.variables) == 0
 //@   panics_if exists i int :: 0 <= i && i < len(node.values) && !(0 <= node.values[i] && node.values[i] < 256)
 //@   panics_only_if (exists s string :: has(node.variables, s)) || (exists i int :: 0 <= i && i < len(node.values) && !(0 <= node.values[i] && node.values[i] < 256))
 //@   ensures forall i int :: 0 <= i && i < len(node.values) ==> 0 <= node.values[i] && node.values[i] < 256
@@ -673,15 +703,17 @@ func specBoolByte(b bool) int {
 //@     invariant 0 <= rangeindex+1 && rangeindex+1 <= len(node.values)
 //@     invariant forall k int :: 0 <= k && k <= rangeindex ==> 0 <= node.values[k] && node.values[k] < 256
 //@   loop 2
+//@     invariant len(node.variables) == 0 ==> allocated() == old(allocated())
 //@     invariant forall k int :: 0 <= k && k < len(node.values) ==> 0 <= node.values[k] && node.values[k] < 256
 //@     invariant forall s string :: has(itervisited, s) ==> has(node.variables, s) && 0 <= node.variables[s] && node.variables[s] < len(node.values) && node.values[node.variables[s]] == 0 && re_match(specVarNamePattern(), s) && has(visited, node.variables[s])
 //@     invariant forall s string, t string :: has(itervisited, s) && has(itervisited, t) && s != t ==> node.variables[s] != node.variables[t]
 //@     invariant fresh(visited)
 
 //@ func NewBinaryNode
-//@   property C01 C12 C13 C09
-//@   allocates_assumed 32*len(values) + 512
-//@   allocates_on_panic 32*len(values) + 512
+//@   property C01 C12 C13 C09 C07
+//@   allocates 32*len(values) + 1024 when (forall i int :: 0 <= i && i < len(values) ==> !typeis(values[i], string))
+//@   allocates_on_panic 32*len(values) + 1024 when (forall i int :: 0 <= i && i < len(values) ==> !typeis(values[i], string))
+//@   ensures (forall i int :: 0 <= i && i < len(values) ==> !typeis(values[i], string)) ==> nvars(result) == 0
 //@   let r = cast(result, *BinaryNode)
 //@   panics_if len(values) > 16777215
 //@   panics_if exists i int :: 0 <= i && i < len(values) && !typeis(values[i], int) && !typeis(values[i], string)
@@ -692,6 +724,7 @@ func specBoolByte(b bool) int {
 //@   ensures forall i int :: 0 <= i && i < len(values) ==> (typeis(values[i], int) && r.values[i] == ival(values[i])) || (typeis(values[i], string) && hasprefix(sval(values[i]), "0b") && parse_ok(sval(values[i]), 0, 0, 1) && r.values[i] == parse_val(sval(values[i]), 0, 0, 1)) || (typeis(values[i], string) && !hasprefix(sval(values[i]), "0b") && r.values[i] == 0 && has(r.variables, sval(values[i])) && r.variables[sval(values[i])] == i)
 //@   ensures (forall i int :: 0 <= i && i < len(values) ==> !typeis(values[i], string)) ==> len(r.variables) == 0
 //@   loop 1
+//@     invariant (forall i int :: 0 <= i && i < len(values) ==> !typeis(values[i], string)) ==> allocated() - old(allocated()) <= 8*len(values) + 24*(rangeindex+1) + 912 && len(nodeVariables) == 0
 //@     invariant 0 <= rangeindex+1 && rangeindex+1 <= len(values) && len(nodeValues) == rangeindex+1 && fresh(nodeValues) && fresh(nodeVariables)
 //@     invariant forall k int :: 0 <= k && k <= rangeindex ==> (typeis(values[k], int) && nodeValues[k] == ival(values[k])) || (typeis(values[k], string) && hasprefix(sval(values[k]), "0b") && parse_ok(sval(values[k]), 0, 0, 1) && nodeValues[k] == parse_val(sval(values[k]), 0, 0, 1)) || (typeis(values[k], string) && !hasprefix(sval(values[k]), "0b") && nodeValues[k] == 0 && has(nodeVariables, sval(values[k])) && nodeVariables[sval(values[k])] == k)
 //@     invariant forall s string :: has(nodeVariables, s) ==> 0 <= nodeVariables[s] && nodeVariables[s] <= rangeindex && typeis(values[nodeVariables[s]], string) && sval(values[nodeVariables[s]]) == s
@@ -706,18 +739,22 @@ func specBoolByte(b bool) int {
 //@ func (*BooleanNode).checkRep
 //@   establishes
 //@   property C12 C13
+//@   allocates 0 when len(node.variables) == 0
+//@   allocates_on_panic 0 when len(node.variables) == 0
 //@   panics_only_if exists s string :: has(node.variables, s)
 //@   ensures forall s string :: has(node.variables, s) ==> 0 <= node.variables[s] && node.variables[s] < len(node.values) && !node.values[node.variables[s]] && re_match(specVarNamePattern(), s)
 //@   ensures forall s string, t string :: has(node.variables, s) && has(node.variables, t) && s != t ==> node.variables[s] != node.variables[t]
 //@   loop 1
+//@     invariant len(node.variables) == 0 ==> allocated() == old(allocated())
 //@     invariant forall s string :: has(itervisited, s) ==> has(node.variables, s) && 0 <= node.variables[s] && node.variables[s] < len(node.values) && !node.values[node.variables[s]] && re_match(specVarNamePattern(), s) && has(visited, node.variables[s])
 //@     invariant forall s string, t string :: has(itervisited, s) && has(itervisited, t) && s != t ==> node.variables[s] != node.variables[t]
 //@     invariant fresh(visited)
 
 //@ func NewBooleanNode
-//@   property C01 C12 C13 C09
-//@   allocates_assumed 32*len(values) + 512
-//@   allocates_on_panic 32*len(values) + 512
+//@   property C01 C12 C13 C09 C07
+//@   allocates 32*len(values) + 1024 when (forall i int :: 0 <= i && i < len(values) ==> !typeis(values[i], string))
+//@   allocates_on_panic 32*len(values) + 1024 when (forall i int :: 0 <= i && i < len(values) ==> !typeis(values[i], string))
+//@   ensures (forall i int :: 0 <= i && i < len(values) ==> !typeis(values[i], string)) ==> nvars(result) == 0
 //@   let r = cast(result, *BooleanNode)
 //@   panics_if len(values) > 16777215
 //@   panics_if exists i int :: 0 <= i && i < len(values) && !typeis(values[i], bool) && !typeis(values[i], string)
@@ -726,6 +763,7 @@ func specBoolByte(b bool) int {
 //@   ensures forall i int :: 0 <= i && i < len(values) ==> (typeis(values[i], bool) && r.values[i] == bval(values[i])) || (typeis(values[i], string) && !r.values[i] && has(r.variables, sval(values[i])) && r.variables[sval(values[i])] == i)
 //@   ensures (forall i int :: 0 <= i && i < len(values) ==> !typeis(values[i], string)) ==> len(r.variables) == 0
 //@   loop 1
+//@     invariant (forall i int :: 0 <= i && i < len(values) ==> !typeis(values[i], string)) ==> allocated() - old(allocated()) <= 8*len(values) + 24*(rangeindex+1) + 912 && len(nodeVariables) == 0
 //@     invariant 0 <= rangeindex+1 && rangeindex+1 <= len(values) && len(nodeValues) == rangeindex+1 && fresh(nodeValues) && fresh(nodeVariables)
 //@     invariant forall k int :: 0 <= k && k <= rangeindex ==> (typeis(values[k], bool) && nodeValues[k] == bval(values[k])) || (typeis(values[k], string) && !nodeValues[k] && has(nodeVariables, sval(values[k])) && nodeVariables[sval(values[k])] == k)
 //@     invariant forall s string :: has(nodeVariables, s) ==> 0 <= nodeVariables[s] && nodeVariables[s] <= rangeindex && typeis(values[nodeVariables[s]], string) && sval(values[nodeVariables[s]]) == s
@@ -737,6 +775,8 @@ func specBoolByte(b bool) int {
 //@ func (*ASCIINode).checkRep
 //@   establishes
 //@   property C12 C13 C15
+//@   allocates 0
+//@   allocates_on_panic 0
 //@   let valOK = node.variable.name == "" && node.variable.minLength == 0 && node.variable.maxLength == 0 && (forall i int :: 0 <= i && i < len(node.value) ==> node.value[i] < 128)
 //@   let varOK = node.value == "" && re_match(specVarNamePattern(), node.variable.name) && node.variable.minLength >= 0 && node.variable.maxLength >= -1 && (node.variable.maxLength == -1 || node.variable.minLength <= node.variable.maxLength)
 //@   panics_iff (node.isValue && !valOK) || (!node.isValue && !varOK)
@@ -746,9 +786,10 @@ func specBoolByte(b bool) int {
 //@     invariant forall p int :: 0 <= p && p < iterpos ==> node.value[p] < 128
 
 //@ func NewASCIINode
-//@   property C01 C12 C13 C09
-//@   allocates_assumed 32*len(str) + 512
-//@   allocates_on_panic 32*len(str) + 512
+//@   property C01 C12 C13 C09 C07
+//@   allocates 1024
+//@   allocates_on_panic 1024
+//@   ensures nvars(result) == 0
 //@   let r = cast(result, *ASCIINode)
 //@   panics_iff len(str) > 16777215 || (exists i int :: 0 <= i && i < len(str) && str[i] >= 128)
 //@   ensures typeis(result, *ASCIINode) && fresh(result) && r.isValue && r.value == str
@@ -770,6 +811,8 @@ func specBoolByte(b bool) int {
 //@ func (*FloatNode).checkRep
 //@   establishes
 //@   property C12 C13
+//@   allocates 0 when len(node.variables) == 0
+//@   allocates_on_panic 0 when len(node.variables) == 0
 //@   let okW = specIsFloatW(node.byteSize)
 //@   let mx = ite(node.byteSize == 4, maxfloat32(), maxfloat64())
 //@   panics_if !okW
@@ -782,15 +825,17 @@ func specBoolByte(b bool) int {
 //@     invariant okW && 0 <= rangeindex+1 && rangeindex+1 <= len(node.values) && max == mx
 //@     invariant forall k int :: 0 <= k && k <= rangeindex ==> !isnan(node.values[k]) && !isinf(node.values[k]) && fneg(mx) <= node.values[k] && node.values[k] <= mx
 //@   loop 2
+//@     invariant len(node.variables) == 0 ==> allocated() == old(allocated())
 //@     invariant okW && forall k int :: 0 <= k && k < len(node.values) ==> !isnan(node.values[k]) && !isinf(node.values[k]) && fneg(mx) <= node.values[k] && node.values[k] <= mx
 //@     invariant forall s string :: has(itervisited, s) ==> has(node.variables, s) && 0 <= node.variables[s] && node.variables[s] < len(node.values) && node.values[node.variables[s]] == 0 && re_match(specVarNamePattern(), s) && has(visited, node.variables[s])
 //@     invariant forall s string, t string :: has(itervisited, s) && has(itervisited, t) && s != t ==> node.variables[s] != node.variables[t]
 //@     invariant fresh(visited)
 
 //@ func NewFloatNode
-//@   property C01 C12 C13 C09
-//@   allocates_assumed 32*len(values) + 512
-//@   allocates_on_panic 32*len(values) + 512
+//@   property C01 C12 C13 C09 C07
+//@   allocates 32*len(values) + 1024 when (forall i int :: 0 <= i && i < len(values) ==> !typeis(values[i], string))
+//@   allocates_on_panic 32*len(values) + 1024 when (forall i int :: 0 <= i && i < len(values) ==> !typeis(values[i], string))
+//@   ensures (forall i int :: 0 <= i && i < len(values) ==> !typeis(values[i], string)) ==> nvars(result) == 0
 //@   let okW = specIsFloatW(byteSize)
 //@   let mx = ite(byteSize == 4, maxfloat32(), maxfloat64())
 //@   let r = cast(result, *FloatNode)
@@ -803,6 +848,7 @@ func specBoolByte(b bool) int {
 //@   panics_only_if !okW || len(values)*byteSize > 16777215 || (exists i int :: 0 <= i && i < len(values) && !(isfloat(values[i]) && !isnan(fval(values[i])) && !isinf(fval(values[i])) && fneg(mx) <= fval(values[i]) && fval(values[i]) <= mx))
 //@   ensures (forall i int :: 0 <= i && i < len(values) ==> !typeis(values[i], string)) ==> len(r.variables) == 0
 //@   loop 1
+//@     invariant (forall i int :: 0 <= i && i < len(values) ==> !typeis(values[i], string)) ==> allocated() - old(allocated()) <= 8*len(values) + 24*(rangeindex+1) + 912 && len(nodeVariables) == 0
 //@     invariant 0 <= rangeindex+1 && rangeindex+1 <= len(values) && len(nodeValues) == rangeindex+1 && fresh(nodeValues) && fresh(nodeVariables)
 //@     invariant forall k int :: 0 <= k && k <= rangeindex ==> (isint(values[k]) && nodeValues[k] == float64(ival(values[k]))) || (isfloat(values[k]) && nodeValues[k] == fval(values[k])) || (typeis(values[k], string) && nodeValues[k] == 0 && has(nodeVariables, sval(values[k])) && nodeVariables[sval(values[k])] == k)
 //@     invariant forall s string :: has(nodeVariables, s) ==> 0 <= nodeVariables[s] && nodeVariables[s] <= rangeindex && typeis(values[nodeVariables[s]], string) && sval(values[nodeVariables[s]]) == s
@@ -823,6 +869,7 @@ func specBoolByte(b bool) int {
 //@   inline
 //@   loop 1
 //@     invariant fresh(result)
+//@     invariant (forall s string :: !has(node.variables, s)) ==> allocated() == old(allocated())
 //@     invariant forall s string :: has(itervisited, s) ==> has(result, node.variables[s]) && result[node.variables[s]] == s
 
 //@ type ListNode view lvar_off(box(self, *ListNode), 0) == 0
@@ -835,6 +882,8 @@ func specBoolByte(b bool) int {
 //@   requires forall s string, t string :: has(node.variables, s) && has(node.variables, t) && s != t ==> node.variables[s] != node.variables[t]
 //@   ensures fresh(result)
 //@   ensures len(result) == lvar_off(me, len(node.values))
+//@   allocates 0 when (forall s string :: !has(node.variables, s)) && (forall i int :: 0 <= i && i < len(node.values) ==> !typeis(node.values[i], emptyItemNode) && nvars(node.values[i]) == 0)
+//@   ensures (forall s string :: !has(node.variables, s)) && (forall i int :: 0 <= i && i < len(node.values) ==> !typeis(node.values[i], emptyItemNode) && nvars(node.values[i]) == 0) ==> len(result) == 0
 //@   ensures forall s string :: has(node.variables, s) && 0 <= node.variables[s] && node.variables[s] < len(node.values) && typeis(node.values[node.variables[s]], emptyItemNode) ==> result[lvar_off(me, node.variables[s])] == s
 //@   defines len(result) == nvars(box(node, *ListNode))
 //@   defines forall k int :: 0 <= k && k < len(result) ==> result[k] == var_at(box(node, *ListNode), k)
@@ -842,6 +891,8 @@ func specBoolByte(b bool) int {
 //@     invariant fresh(result) && 0 <= rangeindex+1 && rangeindex+1 <= len(node.values) && len(result) == lvar_off(me, rangeindex+1)
 //@     invariant forall s string :: has(node.variables, s) ==> has(posVar, node.variables[s]) && posVar[node.variables[s]] == s
 //@     invariant forall i int :: 0 <= i && i <= rangeindex+1 ==> 0 <= lvar_off(me, i) && lvar_off(me, i) <= len(result)
+//@     invariant (forall s string :: !has(node.variables, s)) && (forall i int :: 0 <= i && i < len(node.values) ==> !typeis(node.values[i], emptyItemNode) && nvars(node.values[i]) == 0) ==> len(result) == 0
+//@     invariant allocated() == old(allocated()) || len(result) > 0 || (exists s string :: has(node.variables, s))
 //@     invariant forall s string :: has(node.variables, s) && 0 <= node.variables[s] && node.variables[s] <= rangeindex && typeis(node.values[node.variables[s]], emptyItemNode) ==> result[lvar_off(me, node.variables[s])] == s
 // Not claimed (the solvers do not decide the inductive step within the time limit; listed as a residual of C16 in DESIGN.md):
 //   ensures forall i int, k int :: 0 <= i && i < len(node.values) && !typeis(node.values[i], emptyItemNode) && 0 <= k && k < nvars(node.values[i]) ==> result[lvar_off(me, i) + k] == var_at(node.values[i], k)
@@ -849,6 +900,9 @@ func specBoolByte(b bool) int {
 //@ func (*ListNode).checkRep
 //@   establishes
 //@   property C12 C16
+//@   allocates 0 when (forall s string :: !has(node.variables, s)) && (forall i int :: 0 <= i && i < len(node.values) ==> !typeis(node.values[i], emptyItemNode) && nvars(node.values[i]) == 0)
+//@   allocates_on_panic 0 when (forall s string :: !has(node.variables, s)) && (forall i int :: 0 <= i && i < len(node.values) ==> !typeis(node.values[i], emptyItemNode) && nvars(node.values[i]) == 0)
+//@   ensures (forall s string :: !has(node.variables, s)) && (forall i int :: 0 <= i && i < len(node.values) ==> !typeis(node.values[i], emptyItemNode) && nvars(node.values[i]) == 0) ==> nvars(box(node, *ListNode)) == 0
 //@   maypanic
 //@   requires forall i int :: 0 <= i && i < len(node.values) ==> typeis(node.values[i], ItemNode)
 //@   ensures forall s string :: has(node.variables, s) ==> 0 <= node.variables[s] && node.variables[s] < len(node.values) && typeis(node.values[node.variables[s]], emptyItemNode)
@@ -856,6 +910,7 @@ func specBoolByte(b bool) int {
 //@   ensures forall s string, t string :: has(node.variables, s) && has(node.variables, t) && s != t ==> node.variables[s] != node.variables[t]
 //@   ensures forall s string, t string :: has(node.variables, s) && has(node.variables, t) && !re_match(specVarNamePattern(), s) && !re_match(specVarNamePattern(), t) ==> s == t
 //@   loop 1
+//@     invariant (forall s string :: !has(node.variables, s)) && (forall i int :: 0 <= i && i < len(node.values) ==> !typeis(node.values[i], emptyItemNode) && nvars(node.values[i]) == 0) ==> allocated() == old(allocated())
 //@     invariant fresh(visitedIndex)
 //@     invariant forall s string :: has(itervisited, s) ==> has(node.variables, s) && 0 <= node.variables[s] && node.variables[s] < len(node.values) && typeis(node.values[node.variables[s]], emptyItemNode) && has(visitedIndex, node.variables[s])
 //@     invariant forall s string :: has(itervisited, s) ==> re_match(specVarNamePattern(), s) || (re_match(specEllipsisPattern(), s) && node.variables[s] != 0)
@@ -864,15 +919,17 @@ func specBoolByte(b bool) int {
 //@     invariant (exists s string :: has(itervisited, s) && !re_match(specVarNamePattern(), s)) ==> ellipsisExist
 //@   ensures forall i int, j int :: 0 <= i && i < j && j < nvars(box(node, *ListNode)) ==> var_at(box(node, *ListNode), i) != var_at(box(node, *ListNode), j)
 //@   loop 2
+//@     invariant (forall s string :: !has(node.variables, s)) && (forall i int :: 0 <= i && i < len(node.values) ==> !typeis(node.values[i], emptyItemNode) && nvars(node.values[i]) == 0) ==> allocated() == old(allocated())
 //@     invariant fresh(foundVarName) && -1 <= rangeindex && rangeindex < len(variables) && len(variables) == nvars(box(node, *ListNode))
 //@     invariant forall k int :: 0 <= k && k < len(variables) ==> variables[k] == var_at(box(node, *ListNode), k)
 //@     invariant forall k int :: 0 <= k && k <= rangeindex ==> has(foundVarName, variables[k])
 //@     invariant forall a int, b int :: 0 <= a && a < b && b <= rangeindex ==> variables[a] != variables[b]
 
 //@ func NewListNode
-//@   property C01 C12 C13 C09
-//@   allocates_assumed 32*len(values) + 512
-//@   allocates_on_panic 32*len(values) + 512
+//@   property C01 C12 C13 C09 C07
+//@   allocates 64*len(values) + 1024 when (forall i int :: 0 <= i && i < len(values) ==> typeis(values[i], ItemNode) && !typeis(values[i], emptyItemNode) && nvars(values[i]) == 0)
+//@   allocates_on_panic 64*len(values) + 1024 when (forall i int :: 0 <= i && i < len(values) ==> typeis(values[i], ItemNode) && !typeis(values[i], emptyItemNode) && nvars(values[i]) == 0)
+//@   ensures (forall i int :: 0 <= i && i < len(values) ==> typeis(values[i], ItemNode) && !typeis(values[i], emptyItemNode) && nvars(values[i]) == 0) ==> nvars(result) == 0
 //@   maypanic
 //@   let r = cast(result, *ListNode)
 //@   panics_if len(values) > 16777215
@@ -882,6 +939,9 @@ func specBoolByte(b bool) int {
 //@   ensures forall s string :: has(r.variables, s) ==> 0 <= r.variables[s] && r.variables[s] < len(values) && typeis(values[r.variables[s]], string) && sval(values[r.variables[s]]) == s
 //@   ensures (forall i int :: 0 <= i && i < len(values) ==> !typeis(values[i], string)) ==> len(r.variables) == 0
 //@   loop 1
+//@     invariant (forall i int :: 0 <= i && i < len(values) ==> typeis(values[i], ItemNode) && !typeis(values[i], emptyItemNode) && nvars(values[i]) == 0) ==> (forall k int :: 0 <= k && k <= rangeindex ==> !typeis(nodeValues[k], emptyItemNode) && nvars(nodeValues[k]) == 0)
+//@     invariant (forall k int :: 0 <= k && k <= rangeindex ==> !typeis(values[k], string)) ==> (forall s string :: !has(nodeVariables, s))
+//@     invariant (forall k int :: 0 <= k && k <= rangeindex ==> typeis(values[k], ItemNode)) ==> allocated() - old(allocated()) <= 16*len(values) + 48*(rangeindex+1) + 896
 //@     invariant 0 <= rangeindex+1 && rangeindex+1 <= len(values) && len(nodeValues) == rangeindex+1 && fresh(nodeValues) && fresh(nodeVariables)
 //@     invariant forall k int :: 0 <= k && k <= rangeindex ==> typeis(nodeValues[k], ItemNode)
 //@     invariant forall k int :: 0 <= k && k <= rangeindex ==> (typeis(values[k], ItemNode) && nodeValues[k] == values[k]) || (typeis(values[k], string) && typeis(nodeValues[k], emptyItemNode) && has(nodeVariables, sval(values[k])) && nodeVariables[sval(values[k])] == k)
@@ -893,6 +953,7 @@ func specBoolByte(b bool) int {
 //@   ensures fresh(result)
 //@   defines len(result) == nvars(recv)
 //@   defines forall k int :: 0 <= k && k < len(result) ==> result[k] == var_at(recv, k)
+//@   ensures nvars(recv) == 0 ==> allocated() == old(allocated())
 
 //@ iface ItemNode.ToBytes
 //@   property C02 C11
@@ -905,9 +966,9 @@ func specBoolByte(b bool) int {
 //@   ensures result >= -1
 
 //@ func NewHSMSDataMessage
-//@   property C12 C11 C03 C01
-//@   allocates_assumed 512
-//@   allocates_on_panic 512
+//@   property C12 C11 C03 C01 C07
+//@   allocates 256 when nvars(dataItem) == 0
+//@   allocates_on_panic 256 when nvars(dataItem) == 0
 //@   panics_if !(waitBit == 0 || waitBit == 1)
 //@   panics_if sessionID == -1
 //@   panics_if nvars(dataItem) != 0
@@ -1102,6 +1163,8 @@ func specBoolByte(b bool) int {
 
 //@ func (*ASCIINode).Variables
 //@   property C16 C11
+//@   allocates 16
+//@   allocates 0 when node.isValue
 //@   ensures fresh(result)
 //@   ensures node.isValue ==> len(result) == 0
 //@   ensures !node.isValue ==> len(result) == 1 && result[0] == node.variable.name
@@ -1126,38 +1189,53 @@ func specBoolByte(b bool) int {
 //@   ensures fresh(result) && len(result) == nvars(node.dataItem)
 
 //@ func getVariableNames
-//@   property C16
-//@   trusted
+//@   property C16 C07
+//@   trusted_post
+//@   allocates 64*len(variablePosition) + 128
+//@   allocates 0 when len(variablePosition) == 0
 //@   ensures fresh(result) && len(result) == len(variablePosition)
 //@   ensures forall i int :: 0 <= i && i < len(result) ==> has(variablePosition, result[i])
 //@   ensures forall i int, j int :: 0 <= i && i < j && j < len(result) ==> variablePosition[result[i]] < variablePosition[result[j]]
+//@   loop 1
+//@     invariant fresh(result) && 0 <= itercount && itercount <= len(variablePosition)
+//@     invariant allocated() - old(allocated()) <= 16*len(variablePosition) + 48*itercount
 
 //@ func (*IntNode).Variables
 //@   property C16 C11
+//@   allocates 64*len(node.variables) + 128
+//@   allocates 0 when len(node.variables) == 0
 //@   ensures fresh(result) && len(result) == len(node.variables)
 //@   ensures forall i int :: 0 <= i && i < len(result) ==> has(node.variables, result[i])
 //@   ensures forall i int, j int :: 0 <= i && i < j && j < len(result) ==> node.variables[result[i]] < node.variables[result[j]]
 
 //@ func (*UintNode).Variables
 //@   property C16 C11
+//@   allocates 64*len(node.variables) + 128
+//@   allocates 0 when len(node.variables) == 0
 //@   ensures fresh(result) && len(result) == len(node.variables)
 //@   ensures forall i int :: 0 <= i && i < len(result) ==> has(node.variables, result[i])
 //@   ensures forall i int, j int :: 0 <= i && i < j && j < len(result) ==> node.variables[result[i]] < node.variables[result[j]]
 
 //@ func (*FloatNode).Variables
 //@   property C16 C11
+//@   allocates 64*len(node.variables) + 128
+//@   allocates 0 when len(node.variables) == 0
 //@   ensures fresh(result) && len(result) == len(node.variables)
 //@   ensures forall i int :: 0 <= i && i < len(result) ==> has(node.variables, result[i])
 //@   ensures forall i int, j int :: 0 <= i && i < j && j < len(result) ==> node.variables[result[i]] < node.variables[result[j]]
 
 //@ func (*BinaryNode).Variables
 //@   property C16 C11
+//@   allocates 64*len(node.variables) + 128
+//@   allocates 0 when len(node.variables) == 0
 //@   ensures fresh(result) && len(result) == len(node.variables)
 //@   ensures forall i int :: 0 <= i && i < len(result) ==> has(node.variables, result[i])
 //@   ensures forall i int, j int :: 0 <= i && i < j && j < len(result) ==> node.variables[result[i]] < node.variables[result[j]]
 
 //@ func (*BooleanNode).Variables
 //@   property C16 C11
+//@   allocates 64*len(node.variables) + 128
+//@   allocates 0 when len(node.variables) == 0
 //@   ensures fresh(result) && len(result) == len(node.variables)
 //@   ensures forall i int :: 0 <= i && i < len(result) ==> has(node.variables, result[i])
 //@   ensures forall i int, j int :: 0 <= i && i < j && j < len(result) ==> node.variables[result[i]] < node.variables[result[j]]
